@@ -170,11 +170,14 @@ class C17(core.Property):
           clusters[-1] = [9, -9]       # a cluster far from every client: nobody is assigned to it
         yield {**base, 'K': K, 'clusters': clusters, 'rounds': rounds}
       elif fam == 'clip':
-        pop = self._population(rng, 4, 2, sizes=(0, 1, 2, 3, 5))
+        clip = rng.choice([0.0625, 0.25, 0.5, 1.0, 4.0, 0.0])
+        # bound 0 ("no update may pass") is legal; clients without examples are left out there because a
+        # zero delta clipped to 0 is 0/0 in tree_clip_by_global_norm (outside the property, cf. C07)
+        pop = self._population(rng, 4, 2, sizes=(0, 1, 2, 3, 5) if clip > 0 else (1, 2, 3, 5))
         rounds = [[dict(pop[j]) for j in rng.sample(range(4), rng.choice([1, 2, 3]))]
                   for _ in range(rng.choice([1, 2, 3]))]
         yield {**base, 'copt': rng.choice([['sgd', 0.25, 0.0], ['momentum', 0.125, 0.5]]), 'lr': rng.choice([1.0, 0.5]),
-               'clip': rng.choice([0.0625, 0.25, 0.5, 1.0, 4.0]), 'w0': [rng.choice([-1, 0, 1, 2]) for _ in range(2)],
+               'clip': clip, 'w0': [rng.choice([-1, 0, 1, 2]) for _ in range(2)],
                'keyed': rng.random() < 0.3, 'rounds': rounds}
       else:
         names = [n for n in range(4) if rng.random() < 0.5]
@@ -583,6 +586,10 @@ class C17(core.Property):
       num, tot = np.zeros(2), 0.0
       for j, c in enumerate(cohort):
         dg = diag[c['id']]
+        if 'clipped_delta_l2_norm' not in dg:
+          problems.append(f'round {ri}: client {c["id"]} was aggregated without clipping although clip norm {clip} '
+                          f'is configured (raw delta norm {float(dg["delta_l2_norm"])})')
+          continue
         n_raw, n_clip = float(dg['delta_l2_norm']), float(dg['clipped_delta_l2_norm'])
         if n_clip > clip * (1 + 1e-5) + 1e-7:
           problems.append(f'round {ri}: client {c["id"]} is aggregated with a delta of norm {n_clip} > clip norm {clip}')
@@ -617,7 +624,7 @@ class C17(core.Property):
           G = np.zeros(2)
         ref_opt, _ = bapply(G, ref_opt, before)
       scale = max(scale, float(np.max(np.abs(after))))
-      impl.append({'params': after.tolist(), 'norms': {str(c['id']): float(diag[c['id']]['clipped_delta_l2_norm']) for c in cohort}})
+      impl.append({'params': after.tolist(), 'norms': {str(c['id']): float(diag[c['id']].get('clipped_delta_l2_norm', diag[c['id']]['delta_l2_norm'])) for c in cohort}})
       if problems:
         break
       cl, tab = [], []
